@@ -253,3 +253,112 @@ func H_C14_lambdas() {
 	vfAssert(len(l.d.pendingLambda) == 0, "C14.no-lambda-left-pending")
 	vfCover("C14.lambdas.end")
 }
+
+// ---------------------------------------------------------------------------------------------
+// C14 (a callback that waits for more data when the session dies): go_policy coro. The client's
+// stream is in callback mode; its OnData asks for more bytes than have arrived and parks in the
+// read. Then the peer dies / the session is closed / the connection fails. The teardown lambda
+// (which waits for the callback goroutine) must come back, the parked read must fail, the close
+// callback runs once, and the census of the OS model is clean.
+type c14CBWait struct {
+	local, remote, data int
+	readErr             error
+	returned            bool
+}
+
+func (c *c14CBWait) OnData(r BufferReader) {
+	c.data++
+	n := r.Len()
+	_, c.readErr = r.ReadBytes(n + 2) // waits for two more bytes that never come
+	c.returned = true
+}
+func (c *c14CBWait) OnLocalClose()  { c.local++ }
+func (c *c14CBWait) OnRemoteClose() { c.remote++ }
+
+func H_C14_cbwait() {
+	c14OS = osModel{}
+	smWireAB, smWireBA = nil, nil
+	debugMode = true
+	cfg := func() *Config {
+		return &Config{MemMapType: MemMapTypeMemFd, ShareMemoryBufferCap: 248, QueueCap: 2,
+			ShareMemoryPathPrefix: "p", QueuePath: "q",
+			BufferSliceSizes: []*SizePercentPair{{4, 50}, {8, 50}}}
+	}
+	dA, dB := &c13Dispatcher{}, &c13Dispatcher{}
+	A := &Session{isClient: true, config: cfg(), communicationVersion: 3, eventConn: &smConn{wire: &smWireAB}, dispatcher: dA,
+		netConn: c14NetConn{}, streams: map[uint32]*Stream{}, sendCh: make(chan sendReady, 4), notifyContinueWriteCh: make(chan struct{}, 1),
+		acceptCh: make(chan *Stream, 4), shutdownCh: make(chan struct{})}
+	vfAssert(A.initMemManager() == nil, "C14.client-creates-shared-memory")
+	B := &Session{isClient: false, config: cfg(), communicationVersion: 3, eventConn: &smConn{wire: &smWireBA}, dispatcher: dB,
+		netConn: c14NetConn{}, streams: map[uint32]*Stream{}, sendCh: make(chan sendReady, 4), notifyContinueWriteCh: make(chan struct{}, 1),
+		acceptCh: make(chan *Stream, 4), shutdownCh: make(chan struct{})}
+	c14OS.fdOpen[0]++
+	c14OS.fdOpen[1]++
+	qm, err := mappingQueueManagerMemfd("q", A.queueManager.memFd)
+	vfAssert(err == nil, "C14.server-maps-queue")
+	B.queueManager = qm
+	bm, err2 := getGlobalBufferManagerWithMemFd("p"+bufferPathSuffix, A.bufferManager.memFd, 0, false, nil)
+	vfAssert(err2 == nil, "C14.server-maps-buffers")
+	B.bufferManager = bm
+
+	sa, _ := A.OpenStream()
+	cb := &c14CBWait{}
+	sa.SetCallbacks(cb)
+	sa.BufferWriter().WriteBytes(vfBytes(3))
+	vfAssert(sa.Flush(false) == nil, "C14.flush")
+	for i := range smWireAB {
+		B.handleEvents(smWireAB[i])
+	}
+	smWireAB = nil
+	sb, _ := B.AcceptStream()
+	vfAssert(sb != nil, "C14.server-accepts")
+	if sb == nil {
+		return
+	}
+	// the server answers with three bytes; the client's callback wants five
+	sb.BufferWriter().WriteBytes(vfBytes(3))
+	vfAssert(sb.Flush(false) == nil, "C14.server-flush")
+	for i := range smWireBA {
+		A.handleEvents(smWireBA[i])
+	}
+	smWireBA = nil
+	vfRunGoroutines()
+	vfAssert(cb.data == 1 && !cb.returned, "C14.callback-waits-for-more-data")
+	// F-CBCLOSE (known finding, C14 view): a stream that is closed while its OnData is in
+	// progress - here by the dying session's teardown - never gets its close callback
+	inProgress := sa.callbackInProcess == 1
+	switch vfShape("how", 0, 2) {
+	case 0:
+		A.onRemoteClose()
+	case 1:
+		vfAssert(A.Close() == nil, "C14.close")
+	default:
+		A.exitErr(ErrConnectionWriteTimeout)
+	}
+	vfAssert(A.IsClosed(), "C14.session-becomes-closed")
+	// the teardown runs on the event loop: it must come back although a callback was waiting
+	for i := 0; i < 2; i++ {
+		if i < len(dA.posted) {
+			dA.posted[i]()
+		}
+	}
+	vfRunGoroutines()
+	vfAssert(cb.returned, "C14.read-pending-in-a-callback-returns-when-the-session-dies")
+	vfAssert(cb.readErr != nil, "C14.pending-and-later-reads-fail")
+	if inProgress && cb.local+cb.remote == 0 {
+		vfAssert(false, "F-CBCLOSE/C14.exactly-one-close-callback")
+	} else {
+		vfAssert(cb.local+cb.remote == 1, "C14.exactly-one-close-callback")
+	}
+	B.onRemoteClose()
+	for i := 0; i < 2; i++ {
+		if i < len(dB.posted) {
+			dB.posted[i]()
+		}
+	}
+	for i := 0; i < 2; i++ {
+		vfAssert(c14OS.mapped[i] == 0, "C14.no-mapping-left")
+		vfAssert(c14OS.fdOpen[i] == 0, "C14.no-descriptor-left")
+	}
+	vfCover("C14.cbwait.end")
+}
